@@ -5,6 +5,7 @@ Tree form of a container (harness side):  list of nodes
 """
 from __future__ import annotations
 
+import os
 import random
 
 from . import common as C
@@ -254,6 +255,58 @@ VALUE_ALPHABET = "ABCxyz019 =.|-+_/:FIX8" + "\xe9\xff\x7f\x80"
 FRAMING_LIKE = ["10=", "9=", "8=FIX.", "8=FIX.4.4", "35=", "=", "10=000", "8=FIX.4.4\u00019=5".replace("\u0001", "|")]
 MTYPES = ["D", "8", "0", "A", "AE", "U1", "j", "XYZ", "5", "F"]
 
+_FAM = None
+
+
+def tag_families():
+    """Tag vocabulary taken from the repository itself: every tag number asyncfix.fixtags declares, every message
+    type asyncfix.msgtype declares, and - from tests/FIX44.xml - the Length/Data field pairs and the optional
+    standard header / trailer fields.  Only used to choose WHICH tags generated messages carry."""
+    global _FAM
+    if _FAM is not None:
+        return _FAM
+    import xml.etree.ElementTree as ET
+    allt, mts = set(), set()
+    try:
+        from asyncfix import FTag, FMsg
+        for m in FTag:
+            allt.add(str(m.value))
+        for m in FMsg:
+            mts.add(str(m.value))
+    except Exception:
+        pass
+    pairs, hopt, topt = [], [], []
+    try:
+        repo = os.environ.get("VERIF_REPO", "/repo")
+        root = ET.parse(os.path.join(repo, "tests", "FIX44.xml")).getroot()
+        num, typ = {}, {}
+        for f in root.find("fields"):
+            num[f.get("name")] = f.get("number")
+            typ[f.get("name")] = f.get("type")
+        for name, ty in typ.items():
+            if ty == "DATA":
+                for suf in ("Len", "Length"):
+                    if typ.get(name + suf) == "LENGTH":
+                        pairs.append((num[name + suf], num[name]))
+        for sec, dst in (("header", hopt), ("trailer", topt)):
+            for f in root.find(sec):
+                n = num.get(f.get("name"))
+                if f.tag == "field" and n and n not in HEADER_TAGS:
+                    dst.append(n)
+        allt.update(num.values())
+    except Exception:
+        pass
+    if not pairs:
+        pairs = [("95", "96"), ("93", "89"), ("90", "91"), ("212", "213")]
+    if not hopt:
+        hopt = ["43", "97", "122", "115", "128", "50", "57", "369"]
+    if not topt:
+        topt = ["93", "89"]
+    allt.update(str(t) for t in (1, 11, 55, 58, 5001, 9999, 20000))
+    _FAM = {"all": sorted(allt, key=int), "mtypes": sorted(mts) or MTYPES, "pairs": sorted(pairs),
+            "header_opt": sorted(hopt, key=int), "trailer_opt": sorted(topt, key=int)}
+    return _FAM
+
 
 def gen_value(rng: random.Random) -> str:
     r = rng.random()
@@ -302,8 +355,10 @@ def gen_wf_msg(rng: random.Random, group=None, keep_seq=False):
     members = all_member_tags(tbl)
     free_tags = [str(t) for t in (1, 11, 15, 21, 38, 40, 44, 54, 55, 58, 59, 60, 100, 150, 1000, 5001, 9999)
                  if str(t) not in tbl]
+    fam = tag_families()
+    any_tags = [t for t in fam["all"] if t not in tbl and t not in HEADER_TAGS]
     for _ in range(50):
-        mtype = rng.choice(MTYPES)
+        mtype = rng.choice(MTYPES) if rng.random() < 0.8 else rng.choice(fam["mtypes"])
         tree, used = [], set()
         n_plain = rng.randint(0, 6)
         groups = [group] if group else []
@@ -321,12 +376,38 @@ def gen_wf_msg(rng: random.Random, group=None, keep_seq=False):
             elif kind == "S":
                 tree.append(("L", "34", str(rng.choice([1, 7, 42, 99999, 2**40]))))
             else:
-                pool = free_tags if rng.random() < 0.8 else sorted(members - set(tbl))
+                r = rng.random()
+                pool = free_tags if r < 0.6 else sorted(members - set(tbl)) if r < 0.75 else any_tags
                 t = rng.choice(pool)
                 if t in used or t in HEADER_TAGS:
                     continue
                 used.add(t)
                 tree.append(("L", t, gen_value(rng)))
+        if rng.random() < 0.3:
+            # a bundle of tags that belong together in the FIX dictionary: a Length/Data pair, or optional
+            # standard-header / standard-trailer fields an application may set itself (to the codec they are
+            # ordinary body fields and must stay where the container has them)
+            r = rng.random()
+            if r < 0.45 and fam["pairs"]:
+                a, b = rng.choice(fam["pairs"])
+                data = gen_value(rng)
+                bundle = [(a, str(len(data)) if rng.random() < 0.8 else gen_value(rng)), (b, data)]
+                if rng.random() < 0.15:
+                    bundle.reverse()
+                if rng.random() < 0.2:
+                    bundle = bundle[:1] if rng.random() < 0.5 else bundle[1:]
+            else:
+                src = fam["header_opt"] if r < 0.8 or not fam["trailer_opt"] else fam["trailer_opt"]
+                bundle = [(t, rng.choice(["Y", "N", "1", gen_value(rng)]))
+                          for t in rng.sample(src, min(len(src), rng.randint(1, 3)))]
+            at = rng.randint(0, len(tree))
+            adjacent = rng.random() < 0.7
+            for t, v in bundle:
+                if t in used or t in HEADER_TAGS or t in tbl:
+                    continue
+                used.add(t)
+                tree.insert(at, ("L", t, v))
+                at = at + 1 if adjacent else rng.randint(at + 1, len(tree))
         if wf_msg(mtype, tree, keep_seq):
             return mtype, tree
     return "D", [("L", "55", "X")]
